@@ -78,6 +78,12 @@ class FlipDomain(Domain):
                 return Const(None)
             if last in ('transpose',) or last == 'rot90':
                 return Unknown('transpose/rot90 not in the flip group model')
+        if last == 'where' and len(args) == 3 and any(isinstance(a, FlipArr) for a in args[1:]):
+            # np.where(mask, a, b): the mask must be in the orientation of the data it selects from (same event as a masked store)
+            data = [a for a in args[1:] if isinstance(a, FlipArr)][0]
+            other = [a for a in args[1:] if a is not data]
+            self.interp.emit('arrstore', arr=data, index=args[0], value=other[0] if other else None, node=node)
+            return data
         if last == 'savetxt' and len(args) > 1 and isinstance(args[1], FlipArr):
             self.interp.emit('serialise', arr=args[1], node=node)
             return Const(None)
@@ -250,12 +256,21 @@ def orientation_rules(run, db):
     # the header table is the local bound to _zygo_metadata_helper(); its overrides are <table>['field'][3] = value
     from ..core.pattern import find
     tabs = {b_['V_d'] for b_, _ in find(fw.node, 'V_d = _zygo_metadata_helper()')}
-    if len(tabs) != 1:
-        raise AnalysisError('write_zygo_dat: the header table (bound to _zygo_metadata_helper()) was not found')
     sets = {}
-    for b_, n in find(fw.node, '%s[E_k][3] = E_v' % sorted(tabs)[0]):
-        if isinstance(b_['E_k'], ast.Constant) and isinstance(b_['E_k'].value, str):
-            sets[b_['E_k'].value] = ast.unparse(b_['E_v'])
+    if len(tabs) == 1:
+        for b_, n in find(fw.node, '%s[E_k][3] = E_v' % sorted(tabs)[0]):
+            if isinstance(b_['E_k'], ast.Constant) and isinstance(b_['E_k'].value, str):
+                sets[b_['E_k'].value] = ast.unparse(b_['E_v'])
+    if not sets:
+        # or: the overrides are collected in a dict {'field': value, ...} / dict(field=value, ...) handed to a helper that applies them to the table
+        fields = {'scale_factor', 'obliquity_factor', 'lateral_resolution', 'cn_width', 'cn_height', 'cn_n_bytes', 'wavelength', 'phase_res', 'timestamp'}
+        for n in walk_no_nested(fw.node):
+            if isinstance(n, ast.Dict) and n.keys and all(isinstance(k, ast.Constant) and isinstance(k.value, str) for k in n.keys) and len({k.value for k in n.keys} & fields) >= 4:
+                sets = {k.value: ast.unparse(v) for k, v in zip(n.keys, n.values)}
+            if isinstance(n, ast.Call) and ast.unparse(n.func) == 'dict' and len({k.arg for k in n.keywords} & fields) >= 4:
+                sets = {k.arg: ast.unparse(k.value) for k in n.keywords}
+    if not sets:
+        raise AnalysisError('write_zygo_dat: the header overrides (table[field][3] = value, or a dict of them) were not found')
     run.check(sets.get('cn_width') == 'phase.shape[1]' and sets.get('cn_height') == 'phase.shape[0]', 'C14.header', fw.qual, 'zygo shape fields', 'cn_width=shape[1], cn_height=shape[0]',
               'writer stores cn_width=%s, cn_height=%s' % (sets.get('cn_width'), sets.get('cn_height')), fw.loc())
     run.check(sets.get('cn_n_bytes', '').replace(' ', '') == 'phase.size*4', 'C14.header', fw.qual, 'zygo byte count', 'cn_n_bytes = 4 bytes per sample', 'cn_n_bytes = %s' % sets.get('cn_n_bytes'), fw.loc())
@@ -490,10 +505,14 @@ def struct_rules(run, db):
     run.check(isinstance(hs, Tup) and hs.items[3] == Const(834), 'C14.struct', f.qual, 'header_size default', 'header_size default is 834', 'header_size default is %r' % (hs,), f.loc())
     for q, nm in ((IO + 'write_zygo_dat', 'writer'), (IO + 'read_zygo_metadata', 'reader')):
         fi = db.func(q)
-        run.check(any(isinstance(n, ast.Call) and ast.unparse(n.func) == '_zygo_metadata_helper' for n in walk_no_nested(fi.node)), 'C14.struct', fi.qual, 'shared table',
+        from .common import reachable_calls
+        run.check('_zygo_metadata_helper' in reachable_calls(db, fi), 'C14.struct', fi.qual, 'shared table',
                   '%s uses the shared field table' % nm, '%s no longer uses _zygo_metadata_helper' % nm, fi.loc())
     fw = db.func(IO + 'write_zygo_dat')
-    bufs = [n for n in walk_no_nested(fw.node) if isinstance(n, ast.Call) and ast.unparse(n.func).endswith('create_string_buffer')]
+    # the header buffer may be allocated by a helper the writer calls
+    mod_ = fw.module
+    owners = [fw] + [g for g in mod_.functions.values() if g.name in reachable_calls(db, fw)]
+    bufs = [n for g in owners for n in walk_no_nested(g.node) if isinstance(n, ast.Call) and ast.unparse(n.func).endswith('create_string_buffer')]
     run.check(len(bufs) == 1 and ast.unparse(bufs[0].args[0]) == '834', 'C14.struct', fw.qual, 'buffer size', 'header buffer is 834 bytes', 'header buffer size changed', fw.loc())
 
 
@@ -586,14 +605,17 @@ def zygo_scale_rules(run, db, sets):
     if ok:
         # header values the writer stores: W = wavelength/1e6, S = 1, O = 1, phase_res = 1 -> R = factor[1]
         try:
-            Wst = dom.rat(it.ev(ast.parse(sets.get('wavelength', 'None'), mode='eval').body, Frame(fw, fw.module, {'wavelength': dom.sym('wavelength')})))
-            Sst = dom.rat(it.ev(ast.parse(sets.get('scale_factor', 'None'), mode='eval').body, Frame(fw, fw.module, {})))
-            Ost = dom.rat(it.ev(ast.parse(sets.get('obliquity_factor', 'None'), mode='eval').body, Frame(fw, fw.module, {})))
-            res_w = sets.get('phase_res')
+            # the stored values may be written through locals of the writer (phase_res = 1 ...): evaluate them in its environment
+            wenv = env_of(fw, {'wavelength': dom.sym('wavelength'), 'phase': dom.sym('x')})
+            it._reset_run([])
+            Wst = dom.rat(it.ev(ast.parse(sets.get('wavelength', 'None'), mode='eval').body, wenv))
+            Sst = dom.rat(it.ev(ast.parse(sets.get('scale_factor', 'None'), mode='eval').body, wenv))
+            Ost = dom.rat(it.ev(ast.parse(sets.get('obliquity_factor', 'None'), mode='eval').body, wenv))
+            res_v = it.ev(ast.parse(sets.get('phase_res', 'None'), mode='eval').body, wenv)
         except Exception as e:
             raise AnalysisError('zygo header values not analysable: %s' % e)
         table = it.lookup_global('ZYGO_PHASE_RES_FACTORS', fw.module)
-        Rst = table.get(Const(int(res_w))) if res_w is not None and res_w.isdigit() else None
+        Rst = table.get(Const(int(res_v.v))) if isinstance(res_v, Const) and isinstance(res_v.v, int) else None
         if None in (Wst, Sst, Ost) or Rst is None:
             raise AnalysisError('zygo header values (W,S,O,phase_res) not found in the writer')
         total = cnt * mult.subs({'Wh': Wst, 'Sh': Sst, 'Oh': Ost, 'Rh': dom.rat(Rst)})
@@ -601,48 +623,117 @@ def zygo_scale_rules(run, db, sets):
         detail = 'composition = %s' % total.key()
     run.check(ok, 'C14.scale', fr.qual, 'zygo scale', 'reader scale o writer scale == identity with the (W, S, O, phase_res) the writer stores in the header',
               'Zygo scaling does not compose to the identity: %s' % detail, fr.loc())
-    # sentinel
-    sw = [n for n in walk_no_nested(fw.node) if isinstance(n, ast.Assign) and isinstance(n.targets[0], ast.Subscript) and isinstance(n.targets[0].value, ast.Name) and n.targets[0].value.id == IM
-          and isinstance(n.targets[0].slice, ast.Name)]
+    # sentinel: the invalid samples of the integer array get the invalid-phase constant, by a masked store or by np.where
+    sw = []          # (statement, mask name, stored value text)
+    for n in walk_no_nested(fw.node):
+        if isinstance(n, ast.Assign) and isinstance(n.targets[0], ast.Subscript) and isinstance(n.targets[0].value, ast.Name) and n.targets[0].value.id == IM \
+                and isinstance(n.targets[0].slice, ast.Name):
+            sw.append((n, n.targets[0].slice.id, ast.unparse(n.value)))
+        if isinstance(n, ast.Assign) and isinstance(n.value, ast.Call) and ast.unparse(n.value.func) in ('np.where', 'numpy.where') and len(n.value.args) == 3 \
+                and isinstance(n.value.args[0], ast.Name) and ast.unparse(n.value.args[2]) == IM:
+            sw.append((n, n.value.args[0].id, ast.unparse(n.value.args[1])))
     rw = [n for n in walk_no_nested(fr.node) if isinstance(n, ast.Assign) and isinstance(n.targets[0], ast.Subscript) and ast.unparse(n.value) == 'np.nan']
-    ok = len(sw) == 1 and ast.unparse(sw[0].value) == 'ZYGO_INVALID_PHASE' and len(rw) == 1 and 'ZYGO_INVALID_PHASE' in ast.unparse(rw[0].targets[0]) and '>=' in ast.unparse(rw[0].targets[0])
+    ok = len(sw) == 1 and sw[0][2] == 'ZYGO_INVALID_PHASE' and len(rw) == 1 and 'ZYGO_INVALID_PHASE' in ast.unparse(rw[0].targets[0]) and '>=' in ast.unparse(rw[0].targets[0])
     run.check(ok, 'C14.sentinel', fw.qual, 'zygo sentinel', 'writer stores and reader tests the same invalid-phase constant', 'Zygo invalid-phase sentinel differs between writer and reader', fw.loc())
-    MASK = sw[0].targets[0].slice.id if len(sw) == 1 else None
+    MASK = sw[0][1] if len(sw) == 1 else None
     mk = [n for n in walk_no_nested(fw.node) if isinstance(n, ast.Assign) and ast.unparse(n.targets[0]) == MASK]
     cast = casts
-    flp = [n for n in walk_no_nested(fw.node) if isinstance(n, ast.Assign) and ast.unparse(n.targets[0]) == 'phase' and 'flip' in ast.unparse(n.value)]
-    run.check(len(mk) == 1 and len(cast) == 1 and mk[0].lineno < cast[0].lineno and 'isnan(phase)' in ast.unparse(mk[0].value) and all(f.lineno < mk[0].lineno for f in flp),
-              'C14.sentinel', fw.qual, 'zygo mask', 'NaN mask taken from the (already flipped) map before the integer cast', 'NaN mask is not taken from the flipped map before the cast', fw.loc())
-    # lateral resolution / wavelength round trip through Interferogram
+    # the mask is isnan of the very array that is scaled and cast (the already flipped map), taken before the cast
+    cast_names = {x.id for x in ast.walk(casts[0].value.func.value) if isinstance(x, ast.Name)} if len(casts) == 1 else set()
+    okmask = len(mk) == 1 and len(cast) == 1 and mk[0].lineno < cast[0].lineno and isinstance(mk[0].value, ast.Call) and ast.unparse(mk[0].value.func).endswith('isnan') \
+        and len(mk[0].value.args) == 1 and isinstance(mk[0].value.args[0], ast.Name) and mk[0].value.args[0].id in cast_names
+    if okmask:
+        src = mk[0].value.args[0].id
+        flp = [n for n in walk_no_nested(fw.node) if isinstance(n, ast.Assign) and ast.unparse(n.targets[0]) == src and 'flip' in ast.unparse(n.value)]
+        okmask = all(f_.lineno < mk[0].lineno for f_ in flp)
+    run.check(okmask, 'C14.sentinel', fw.qual, 'zygo mask', 'NaN mask taken from the (already flipped) map before the integer cast', 'NaN mask is not taken from the flipped map before the cast', fw.loc())
+    # lateral resolution / wavelength round trip through Interferogram: decided by interpreting the loader (the file readers
+    # summarised as dictionaries of symbols, the constructor inlined) and composing it with the values the writer stores
+    from .common import capture_calls, bind_call
+    from ..core.interp import DictV, Obj
     fi = db.func('prysm.interferogram.Interferogram.from_zygo_dat')
-    ctor0 = [n for n in walk_no_nested(fi.node) if isinstance(n, ast.Call) and ast.unparse(n.func) == 'Interferogram']
-    dxe = next((k.value for c_ in ctor0 for k in c_.keywords if k.arg == 'dx'), None)
-    okdx = isinstance(dxe, ast.BinOp) and isinstance(dxe.op, ast.Mult) and isinstance(dxe.right, ast.Constant) and dxe.right.value == 1e3 \
-        and ('read_zygo_dat', ('meta', 'lateral_resolution')) in _field_sources(fi, dxe.left)
-    run.check(sets.get('lateral_resolution', '').replace(' ', '') in ('dx/1000.0', 'dx/1e3') and okdx, 'C14.scale', fi.qual, 'lateral resolution', 'dx: mm -> m in the file -> mm on load',
-              'lateral resolution units do not round trip (writer %s)' % sets.get('lateral_resolution'), fi.loc())
-    fin = db.func('prysm.interferogram.Interferogram.__init__')
-    run.check(sets.get('wavelength', '').replace(' ', '') in ('wavelength/1000000.0', 'wavelength/1e6') and 'wavelength *= 1000000.0' in ast.unparse(fin.node), 'C14.scale', fin.qual, 'wavelength',
-              'wavelength: um -> m in the file -> um on load', 'wavelength units do not round trip (writer %s)' % sets.get('wavelength'), fin.loc())
-    # which header field becomes the wavelength of the loaded object: the one the writer stores ('wavelength')
-    ctor = [n for n in walk_no_nested(fi.node) if isinstance(n, ast.Call) and ast.unparse(n.func) == 'Interferogram']
-    if len(ctor) != 1:
-        raise AnalysisError('from_zygo_dat: Interferogram(...) construction not found')
-    ckw = {k.arg: k.value for k in ctor[0].keywords}
-    wv = ckw.get('wavelength')
-    wtxt = ast.unparse(wv).replace(' ', '') if wv is not None else None
-    delegated = wv is None and False or (isinstance(wv, ast.Constant) and wv.value is None)
-    direct = wtxt is not None and "['wavelength']" in wtxt.replace('"', "'") and 'select' not in wtxt
-    first_get = [n for n in walk_no_nested(fin.node) if isinstance(n, ast.Call) and isinstance(n.func, ast.Attribute) and n.func.attr == 'get' and ast.unparse(n.func.value) == 'meta']
-    ok_init = bool(first_get) and isinstance(first_get[0].args[0], ast.Constant) and sorted(first_get, key=lambda n_: n_.lineno)[0].args[0].value == 'wavelength'
-    run.check((delegated and ok_init) or direct, 'C14.scale', fi.qual, 'wavelength field', "the loaded object's wavelength comes from the header field 'wavelength' (the one write_zygo_dat stores)",
-              "from_zygo_dat builds the Interferogram with wavelength=%s; write_zygo_dat stores the wavelength under 'wavelength' only, so another field (or a default left in it) makes a saved non-HeNe wavelength come back changed" % wtxt, fi.loc(ctor[0]))
-    okm = all(('read_zygo_dat', (fld,)) in _field_sources(fi, ckw[fld]) for fld in ('phase', 'meta', 'intensity') if fld in ckw) and {'phase', 'meta', 'intensity'} <= set(ckw)
-    run.check(okm, 'C14.scale', fi.qual, 'loader wiring', 'phase, intensity and header of the file go to the object', 'from_zygo_dat wiring changed', fi.loc(ctor[0]))
+    itl, doml = norm_interp(db)
+    itt_, domt_ = norm_interp(db)
+    ft_ = db.func(IO + '_zygo_metadata_helper')
+    tv = returns(itt_.run(ft_), ft_)[0].value
+    table_fields = [(k.v, (v.items[3].v if isinstance(v.items[3], Const) else None)) for k, v in tv.entries if isinstance(k, Const) and isinstance(v, Tup) and len(v.items) == 4]
+    if len(table_fields) < 100:
+        raise AnalysisError('the Zygo header table could not be evaluated')
+
+    def reader_result(fi_, b_):
+        meta = DictV()
+        if fi_.name == 'read_zygo_dat':
+            # every field of the header table is present in the metadata of a .dat file: numbers as symbols, text fields with their default
+            for k_, v_ in table_fields:
+                meta.set(Const(k_), Const(v_) if isinstance(v_, str) else doml.sym('H_' + k_))
+            meta.set(Const('lateral_resolution'), doml.sym('LR'))
+            meta.set(Const('wavelength'), doml.sym('WLm'))
+        else:
+            meta.set(Const('Lateral Resolution'), doml.sym('LRx'))
+            meta.set(Const('Wavelength'), doml.sym('WLx'))
+        d = DictV()
+        d.set(Const('phase'), doml.sym('PH_' + fi_.name))
+        d.set(Const('intensity'), doml.sym('INT_' + fi_.name))
+        d.set(Const('meta'), meta)
+        return d
+    paths, rcalls = capture_calls(itl, doml, fi, lambda: {'path': doml.sym('path'), 'multi_intensity_action': Const('first')}, {IO + 'read_zygo_dat', IO + 'read_zygo_datx'}, reader_result)
+    loaded = [p_ for p_ in paths if p_.outcome == 'return' and isinstance(p_.value, Obj)]
+    if not loaded:
+        raise AnalysisError('from_zygo_dat: no path returns an Interferogram')
+    RL = doml.R
+    AL = lambda nme: Rat(RL.atom(nme))
+    dat_paths = 0
+    for p_ in loaded:
+        o = p_.value
+        ph = doml.rat(o.attrs.get('data'))
+        if ph is None or ph.key() != 'PH_read_zygo_dat':
+            continue                    # the .datx branch is outside this property
+        dat_paths += 1
+        dxv, wlv = doml.rat(o.attrs.get('dx')), doml.rat(o.attrs.get('wavelength'))
+        it._reset_run([])
+        wenv2 = Frame(fw, fw.module, {'dx': dom.sym('dx'), 'wavelength': dom.sym('wavelength')})
+        try:
+            lr_w = dom.rat(it.ev(ast.parse(sets.get('lateral_resolution', 'None'), mode='eval').body, wenv2))
+            wl_w = dom.rat(it.ev(ast.parse(sets.get('wavelength', 'None'), mode='eval').body, wenv2))
+        except Exception:
+            lr_w = wl_w = None
+        okdx = dxv is not None and lr_w is not None and dxv.atoms() <= {'LR'} and Rat(dom.R.atom('dx')) == _resub(dom, dxv, 'LR', lr_w)
+        run.check(okdx, 'C14.scale', fi.qual, 'lateral resolution', 'dx: mm -> m in the file -> mm on load',
+                  'lateral resolution units do not round trip: the writer stores %s, the loader turns the stored value LR into dx = %s' % (sets.get('lateral_resolution'), dxv.key() if dxv is not None else '?'), fi.loc())
+        okwl = wlv is not None and wl_w is not None and wlv.atoms() <= {'WLm'} and Rat(dom.R.atom('wavelength')) == _resub(dom, wlv, 'WLm', wl_w)
+        run.check(okwl, 'C14.scale', fi.qual, 'wavelength field', "the loaded object's wavelength is the header field 'wavelength' (the one write_zygo_dat stores), m -> um",
+                  "the loaded wavelength is %s of the header (writer stores %s under 'wavelength'): a saved wavelength does not come back unchanged" % (wlv.key() if wlv is not None else repr(o.attrs.get('wavelength')), sets.get('wavelength')), fi.loc())
+        inten = doml.rat(o.attrs.get('intensity')) if o.attrs.get('intensity') is not None else None
+        okm = inten is not None and inten.key() == 'INT_read_zygo_dat' and isinstance(o.attrs.get('meta'), DictV) and o.attrs['meta'].get(Const('lateral_resolution')) is not None
+        run.check(okm, 'C14.scale', fi.qual, 'loader wiring', 'phase, intensity and header of the file go to the object', 'from_zygo_dat does not hand the intensity / header of the file to the object', fi.loc())
+    if dat_paths == 0:
+        raise AnalysisError('from_zygo_dat: no path loads a .dat file')
     fs = db.func('prysm.interferogram.Interferogram.save_zygo_dat')
-    calls = [n for n in walk_no_nested(fs.node) if isinstance(n, ast.Call) and ast.unparse(n.func) == 'write_zygo_dat']
-    kw = {k.arg: ast.unparse(k.value) for c in calls for k in c.keywords}
-    run.check(len(calls) == 1 and kw.get('phase') == 'self.data' and kw.get('dx') == 'self.dx' and kw.get('wavelength') == 'self.wavelength', 'C14.scale', fs.qual, 'save', 'save passes data [nm], dx [mm], wavelength [um]', 'save_zygo_dat passes %s' % kw, fs.loc())
+    its, doms = norm_interp(db)
+    cis = db.cls('prysm.interferogram.Interferogram')
+
+    def mkself_s():
+        o = Obj(cis)
+        o.attrs.update({'data': doms.sym('DATA'), 'dx': doms.sym('DX'), 'wavelength': doms.sym('WL'), 'intensity': Const(None), '_latcaled': Unknown('calibration flag')})
+        return o
+    paths, wcalls = capture_calls(its, doms, fs, lambda: {'file': doms.sym('file')}, {IO + 'write_zygo_dat'}, lambda fi_, b_: Const(None), self_obj=mkself_s)
+    keys_ = lambda v_: doms.rat(v_).key() if v_ is not None and doms.rat(v_) is not None else repr(v_)
+    oks = len(wcalls) >= 1 and all(keys_(c_[1].get('phase')) == 'DATA' and keys_(c_[1].get('dx')) == 'DX' and keys_(c_[1].get('wavelength')) == 'WL' for c_ in wcalls)
+    run.check(oks, 'C14.scale', fs.qual, 'save', 'save passes data [nm], dx [mm], wavelength [um]', 'save_zygo_dat calls write_zygo_dat with %s' % [{k: keys_(v) for k, v in c_[1].items()} for c_ in wcalls], fs.loc())
+
+
+def _resub(dom_target, r_src, atom, value):
+    """r_src (a Rat of another ring, affine in `atom` with constant coefficients) evaluated at atom = value, in dom_target's ring."""
+    from ..core.norm import Rat as _R
+    R = dom_target.R
+    ring = r_src.num.R
+    z = r_src.subs({atom: _R(ring.const(0))})
+    o = r_src.subs({atom: _R(ring.const(1))})
+    if z is None or o is None or not (z.num.is_const() and z.den.is_const() and o.num.is_const() and o.den.is_const()):
+        return None
+    c0 = z.num.const_value() / z.den.const_value()
+    c1 = o.num.const_value() / o.den.const_value() - c0
+    return _R(R.const(c0)) + _R(R.const(c1)) * value
 
 
 def trunc_rules(run, db):
